@@ -15,13 +15,15 @@ Fail(name, ok) == IF ok THEN {} ELSE {name}
 CaseOf(e) == CASE e.c.kind = "count" -> [kind |-> "count", n |-> e.c.n]
                [] e.c.kind = "keys" -> [kind |-> "keys", keys |-> e.c.keys]
                [] e.c.kind = "matrix" -> [kind |-> "matrix", mk |-> e.c.mk, mv |-> e.c.mv]
+               [] e.c.kind = "mixed" -> [kind |-> "mixed", types |-> e.c.types]
 VarsStr(x) == [num |-> IF "num" \in DOMAIN x THEN ToString(x.num) ELSE "",
                key |-> IF "key" \in DOMAIN x THEN x.key ELSE "",
                m |-> IF "m" \in DOMAIN x THEN x.m ELSE <<>>]
 Witness(c) == IF InputDistinct(c) THEN "hash-collision" ELSE "duplicate-index"
-Class(c) == IF c.kind = "count" /\ c.n >= 70 THEN "count>=70" ELSE "small"
+Class(c) == IF c.kind = "mixed" THEN "mixed" ELSE IF c.kind = "count" /\ c.n >= 70 THEN "count>=70" ELSE "small"
 
 LineFails(e) ==
+    IF e.c.kind = "mixed" THEN Fail("C14_Admission", ~e.accepted) ELSE     \* more than one parallelism type: admission must refuse
     LET c == CaseOf(e)  X == Expand(c) IN
          Fail("C14_Expansion", e.idx = X)
     \cup Fail("C14_Deterministic", e.stable)
